@@ -143,6 +143,23 @@ pub fn compare_simd(left: &dyn Array, right: &dyn Array, op: CompareOp) -> Resul
         )));
     }
 
+    // The value loops below have no validity handling: with a NULL on either
+    // side the comparison is NULL, which Arrow's comparison kernels produce.
+    if (left.null_count() > 0 || right.null_count() > 0)
+        && matches!(left.data_type(), DataType::Int64 | DataType::Float64)
+        && left.data_type() == right.data_type()
+    {
+        use arrow::compute::kernels::cmp;
+        return Ok(match op {
+            CompareOp::Eq => cmp::eq(&left, &right)?,
+            CompareOp::Ne => cmp::neq(&left, &right)?,
+            CompareOp::Lt => cmp::lt(&left, &right)?,
+            CompareOp::Le => cmp::lt_eq(&left, &right)?,
+            CompareOp::Gt => cmp::gt(&left, &right)?,
+            CompareOp::Ge => cmp::gt_eq(&left, &right)?,
+        });
+    }
+
     match op {
         CompareOp::Eq => compare_eq(left, right),
         CompareOp::Ne => compare_ne(left, right),
